@@ -304,7 +304,9 @@ func (m *matcher) rec(cands []cand, pos int) int {
 				stat = append(stat, cand{c.p, c.t + 1})
 			}
 		case tParam:
-			if rest > 0 {
+			// a named parameter stands for a non-empty piece of a segment ("/user/:name" does not match "/user/",
+			// and "/v:ver" does not match "/v"): the same holds in the middle of a path
+			if rest > 0 && m.path[pos] != '/' {
 				par = append(par, cand{c.p, c.t + 1})
 			}
 		case tAny:
